@@ -111,6 +111,22 @@ func (st LString) Format(f fmt.State, c rune) {
 	case 's':
 		formatBytes(string(st), f, true)
 		return
+	case 'q': // as Lua's string.format: a form the Lua reader turns back into the same bytes
+		buf := append(make([]byte, 0, len(st)+2), '"')
+		for i := 0; i < len(st); i++ {
+			switch c := st[i]; c {
+			case '"', '\\', '\n':
+				buf = append(buf, '\\', c)
+			case '\r':
+				buf = append(buf, '\\', 'r')
+			case 0:
+				buf = append(buf, '\\', '0', '0', '0')
+			default:
+				buf = append(buf, c)
+			}
+		}
+		f.Write(append(buf, '"'))
+		return
 	}
 	defaultFormat(string(st), f, c)
 }
